@@ -509,3 +509,68 @@ package flamego
 //@   ensures err != nil ==> rhWriter(c).hdrCount == old(rhWriter(c).hdrCount) + 1 && (!old(rhWriter(c).hdrSent) ==> rhWriter(c).firstStatus == 500)
 //@   ensures err != nil && !old(rhWriter(c).hdrSent) ==> rhWriter(c).ctAtHdr == ite(flamego.Env() == EnvTypeDev, "text/html", "text/plain")
 //@   ensures err != nil && flamego.Env() != EnvTypeDev ==> rhWriter(c).lastWrite == http.StatusText(500)
+
+// ---------------------------------------------------------------------------
+// C16 Static
+// ---------------------------------------------------------------------------
+
+//@ uninterpreted ctxWriter(c Context) ResponseWriter
+//@ uninterpreted ctxRequest(c Context) *Request
+//@ iface Context.ResponseWriter(this) w
+//@   pure
+//@   ensures w == ctxWriter(this) && w != nil
+//@ iface Context.Request(this) r
+//@   pure
+//@   ensures r == ctxRequest(this) && r != nil && r.Request != nil && r.Request.URL != nil
+
+// ghost of the response as seen by a middleware: has anything been sent / set through it
+//@ ghost field http.ResponseWriter.served io.ReadSeeker   // content handed to http.ServeContent
+//@ ghost field http.ResponseWriter.redirects int
+//@ ghost field http.ResponseWriter.redirectTo string
+//@ ghost field http.File.fromFS http.FileSystem
+//@ ghost field http.File.openName string
+//@ uninterpreted statIsDir(f http.File) bool
+//@ uninterpreted statOK(f http.File) bool
+//@ uninterpreted pathJoin2(a string, b string) string
+
+//@ functype "func() string" () r
+//@   modifies nothing
+
+// option normalisation
+//@ func Static$1
+//@   props C16
+//@   ensures result.Directory == ite(opts.Directory == "", "public", opts.Directory)
+//@   ensures result.FileSystem != nil
+//@   ensures opts.Prefix == "" ==> result.Prefix == ""
+//@   ensures opts.Prefix != "" ==> result.Prefix == "/" + strings.Trim(opts.Prefix, "/")
+//@   ensures result.Index == ite(opts.Index == "", "index.html", opts.Index)
+
+// the file name handed to FileSystem.Open for a request path (after the prefix is removed)
+//@ define staticRest(path string, prefix string) string = ite(prefix == "", path, path[len(prefix):])
+//@ define staticName(path string, prefix string) string =
+//@     ite(staticRest(path, prefix) == "/", ".", strings.TrimRight(staticRest(path, prefix), "/"))
+//@ define underPrefix(path string, prefix string) bool = prefix == "" ||
+//@     (strings.HasPrefix(path, prefix) && (path[len(prefix):] == "" || path[len(prefix):][0] == '/'))
+
+//@ func Static$2
+//@   props C16
+//@   requires c != nil && logger != nil
+//@   requires-captured opt.FileSystem != nil
+//@   requires ctxWriter(c).served == nil && ctxWriter(c).redirects == 0
+//@   modifies ctxWriter(c).served, ctxWriter(c).redirects, ctxWriter(c).redirectTo, hdrOf(ctxWriter(c))[*],
+//@       ctxWriter(c).hdrCount, ctxWriter(c).hdrSent, ctxWriter(c).firstStatus, ctxWriter(c).bodyAtHdr, ctxWriter(c).ctAtHdr
+//@   ensures ctxRequest(c).Request.Method != "GET" && ctxRequest(c).Request.Method != "HEAD" ==> ctxWriter(c).served == nil && ctxWriter(c).redirects == 0 && ctxWriter(c).hdrCount == old(ctxWriter(c).hdrCount) && (forall k string :: hdrOf(ctxWriter(c))[k] == old(hdrOf(ctxWriter(c))[k]))
+//@   ensures !underPrefix(ctxRequest(c).Request.URL.Path, opt.Prefix) ==> ctxWriter(c).served == nil && ctxWriter(c).redirects == 0 && ctxWriter(c).hdrCount == old(ctxWriter(c).hdrCount) && (forall k string :: hdrOf(ctxWriter(c))[k] == old(hdrOf(ctxWriter(c))[k]))
+//@   ensures ctxWriter(c).served != nil ==> ctxWriter(c).served.(http.File).fromFS == opt.FileSystem && !statIsDir(ctxWriter(c).served.(http.File)) && statOK(ctxWriter(c).served.(http.File))
+//@   ensures ctxWriter(c).served != nil ==>
+//@       ctxWriter(c).served.(http.File).openName == staticName(ctxRequest(c).Request.URL.Path, opt.Prefix) ||
+//@       ctxWriter(c).served.(http.File).openName == pathJoin2(staticName(ctxRequest(c).Request.URL.Path, opt.Prefix), opt.Index)
+//@   ensures ctxWriter(c).redirects <= 1 && (ctxWriter(c).redirects == 1 ==> ctxWriter(c).served == nil && ctxWriter(c).redirectTo == path.Clean(ctxRequest(c).Request.URL.Path) + "/")
+//@   ensures ctxWriter(c).served == nil && ctxWriter(c).redirects == 0 && ctxWriter(c).hdrCount == old(ctxWriter(c).hdrCount) ==> (forall k string :: hdrOf(ctxWriter(c))[k] == old(hdrOf(ctxWriter(c))[k]))
+
+//@ func Static$2$1
+//@   props C16
+//@   modifies nothing
+//@ func Static$2$2
+//@   props C16
+//@   modifies nothing
